@@ -11,6 +11,7 @@ import (
 	"testing"
 	"time"
 
+	"github.com/AdguardTeam/AdGuardDNS/internal/dnsmsg"
 	"github.com/AdguardTeam/AdGuardDNS/verif/tbench"
 	"github.com/AdguardTeam/AdGuardDNS/verif/vkit"
 )
@@ -23,7 +24,10 @@ func TestCheck(t *testing.T) {
 		"names (10 kinds incl. mixed case, 255 octets, special bytes), qtype/qclass classes weighted to the special ones, " +
 		"random header flags, EDNS shapes, optional NOTIFY/IXFR-style records and the handler's reserved labels; " +
 		"(2) hostile inputs: random bytes, truncations of valid messages at every offset, header mutations over " +
-		"QR x opcode x section counts {0,1,2,65535} (header-only and with consistent content), structural oddities. " +
+		"QR x opcode x section counts {0,1,2,65535} (header-only and with consistent content), structural oddities; " +
+		"(3) queries whose handling takes 30 ms, written in bursts of 1..5 on TCP/DoT connections that the client " +
+		"half-closes right behind them; (4) uniquely named queries sent by 32 parallel clients per path to a second " +
+		"set of servers whose responses are built from, and disposed of into, the pools of a production dnsmsg.Cloner. " +
 		"Every input is sent over every client path and the observation is compared with the treatment computed from " +
 		"the bytes alone (reference = the handler invoked directly through NonWriterResponseWriter). " +
 		"A case is non-trivial when it was actually sent and an observation was judged; its class is " +
@@ -69,12 +73,16 @@ func TestCheck(t *testing.T) {
 		canons:      map[int]map[string]canon{},
 		wantSamples: map[string]struct{}{},
 	}
-	var paths []*pathDef
+	var paths, halfClosePaths []*pathDef
 	for _, p := range allPaths {
-		if p.thorough && !r.Thorough() {
-			continue
+		switch {
+		case p.thorough && !r.Thorough():
+			// Skip.
+		case p.halfClose:
+			halfClosePaths = append(halfClosePaths, p)
+		default:
+			paths = append(paths, p)
 		}
-		paths = append(paths, p)
 	}
 
 	for _, p := range paths {
@@ -148,6 +156,27 @@ func TestCheck(t *testing.T) {
 	// Phase 3: requests that are wrong at the HTTP level.
 	e.httpLevel(paths)
 
+	// Phase 4: the client half-closes (TCP FIN, TLS close_notify) right after
+	// writing 1…5 queries whose handling takes 30 ms: the server's read loop
+	// ends while accepted queries are still in the handler, and every one of
+	// them must still get its answer.
+	nSlow := r.N(240, 2400)
+	slow := make([]*input, nSlow)
+	for i := range slow {
+		l := []byte(labelSlow)
+		if i%2 == 1 {
+			l = []byte("HSlow")
+		}
+		slow[i] = genPlain(r, "slow", i, e.salt, l)
+	}
+
+	e.runPhase(halfClosePaths, slow, func(*pathDef) int { return r.N(4, 8) }, 0)
+
+	// Phase 5: pooled responses under truly concurrent traffic.
+	if !e.poolPhase() {
+		return
+	}
+
 	// Observations of the servers themselves.
 	snap := metrics.Snapshot()
 	r.Extra("server_metrics", snap)
@@ -174,6 +203,10 @@ func TestCheck(t *testing.T) {
 		default:
 			r.Require("path:"+p.name+":accept/handler-answered", int64(r.N(150, 1500)))
 		}
+	}
+	for _, p := range halfClosePaths {
+		r.Require("path:"+p.name+":accept/handler-answered", int64(r.N(200, 2000)))
+		r.Require("pipelined_bursts:"+p.name, int64(r.N(30, 300)))
 	}
 	for _, p := range hostilePaths {
 		r.Require("path:"+p.name+":undecodable", int64(r.N(150, 800)))
@@ -258,4 +291,101 @@ func (e *env) httpLevel(paths []*pathDef) {
 		pd := &pathDef{name: "doh-" + string(p.variant) + "-post", family: famDoH, variant: p.variant}
 		e.account(pd, probe, expect(pd, probe), observation{res: res})
 	}
+}
+
+// poolClients is the number of parallel clients per path in the pooled phase.
+const poolClients = 32
+
+// poolPhase starts a second bench whose servers dispose of responses into the
+// pools of a production dnsmsg.Cloner and whose handler builds every response
+// from those pools, and drives it with poolClients parallel clients per path.
+// Every request has a unique name; a response that was recycled before it was
+// sent shows up with another request's ID, question or records.  It returns
+// false if the phase could not be run.
+func (e *env) poolPhase() (ok bool) {
+	r := e.r
+
+	cloner := dnsmsg.NewCloner(dnsmsg.EmptyClonerStat{})
+	handlerConc := newConcurrency()
+	metrics := &tbench.CountingMetrics{}
+	b, err := tbench.Start(tbench.Config{
+		Handler:  poolingHandler(cloner, handlerConc),
+		Disposer: cloner,
+		Metrics:  metrics,
+		Only:     []tbench.Server{tbench.SrvDNS, tbench.SrvDoT, tbench.SrvDoH, tbench.SrvDoQ, tbench.SrvDNSCrypt},
+		DNS:      tbench.StreamOptions{MaxUDPRespSize: configuredUDPMax, ReadTimeout: serverReadTimeout},
+		DoT:      tbench.StreamOptions{ReadTimeout: serverReadTimeout},
+	})
+	if err != nil {
+		r.Inconclusive("cannot start the second transport bench: " + err.Error())
+
+		return false
+	}
+	defer func() {
+		if cErr := b.Close(); cErr != nil {
+			r.Extra("shutdown_error_pool_bench", cErr.Error())
+		}
+	}()
+
+	h2, err := b.NewHTTPClient(tbench.HTTP2)
+	if err != nil {
+		r.Inconclusive("cannot create the h2 client of the second bench: " + err.Error())
+
+		return false
+	}
+
+	e2 := &env{
+		r:           r,
+		b:           b,
+		http:        map[tbench.HTTPVariant]*tbench.HTTPClient{tbench.HTTP2: h2},
+		answerWait:  e.answerWait,
+		udpWait:     e.udpWait,
+		silenceWait: e.silenceWait,
+		salt:        e.salt,
+		canons:      map[int]map[string]canon{},
+		wantSamples: map[string]struct{}{},
+		inflight:    newConcurrency(),
+	}
+
+	poolPaths := []*pathDef{
+		{name: "pool-udp", family: famUDP},
+		{name: "pool-tcp", family: famStream},
+		{name: "pool-dot", family: famStream, tls: true},
+		{name: "pool-doh-h2-post", family: famDoH, variant: tbench.HTTP2},
+		{name: "pool-doq", family: famDoQ},
+		{name: "pool-dnscrypt-udp", family: famDNSCryptUDP},
+		{name: "pool-dnscrypt-tcp", family: famDNSCryptTCP},
+	}
+
+	perClient := r.N(40, 300)
+	ins := make([]*input, poolClients*perClient)
+	for i := range ins {
+		ins[i] = genPlain(r, "pool", i, e.salt)
+	}
+
+	e2.runPhase(poolPaths, ins, func(*pathDef) int { return poolClients }, 0)
+
+	for name, n := range e2.inflight.maxima() {
+		r.Bucket("pool_max_inflight:"+name, int64(n))
+	}
+	for name, n := range handlerConc.maxima() {
+		r.Bucket("pool_max_concurrent_handlers:"+name, int64(n))
+	}
+	if snap := metrics.Snapshot(); snap.Panics > 0 {
+		r.Violation("any:panic-recovered", "a server recovered from a panic while handling the workload (the handler never panics)",
+			map[string]any{"phase": "pooled responses", "panics": snap.Panics, "values": snap.PanicValues})
+	}
+
+	e2.mu.Lock()
+	e.mu.Lock()
+	e.infra += e2.infra
+	e.mu.Unlock()
+	e2.mu.Unlock()
+
+	for _, p := range poolPaths {
+		r.Require("path:"+p.name+":accept/handler-answered", int64(poolClients*perClient*9/10))
+		r.Require("pool_max_inflight:"+p.name, poolClients/2)
+	}
+
+	return true
 }
